@@ -103,8 +103,8 @@ func srvScriptCoq(cs srvConn, timerAtWait bool) string {
 	switch cs.TLS {
 	case "ok":
 		tls = "(Some true)"
-	case "fail":
-		tls = "(Some false)"
+	case "fail", "silent", "silent3":
+		tls = "(Some false)" // the handshake never completes
 	}
 	return fmt.Sprintf("{| s_tls := %s; s_hook := %s; s_sync := %s; s_script := %s |}", tls, h.Bool(!cs.HookFail), h.Bool(cs.Sync), h.List(acts))
 }
@@ -219,6 +219,20 @@ func c08Oracle(c *h.Ctx, sc srvScenario, r srvResult, caseJSON any, prop string)
 	if !r.ProbeOK {
 		c.Fail(prop+"/stops-serving", "a fresh connection was not served after the scenario", caseJSON)
 	}
+	// a silent peer does not hold up the others: their scripts finish long before it leaves
+	silent := false
+	for _, cs := range sc.Conns {
+		if strings.HasPrefix(cs.TLS, "silent") {
+			silent = true
+		}
+	}
+	if silent {
+		for i, cs := range sc.Conns {
+			if !strings.HasPrefix(cs.TLS, "silent") && i < len(r.Conns) && (r.Conns[i].DoneMs > 1500 || r.Conns[i].Err != "") {
+				c.Fail(prop+"/stops-serving/while-a-peer-is-silent", fmt.Sprintf("connection %d was not served while another peer stayed silent during its TLS handshake (script took %d ms, err %q)", i, r.Conns[i].DoneMs, r.Conns[i].Err), caseJSON)
+			}
+		}
+	}
 	anyShutdown := false
 	for _, cs := range sc.Conns {
 		for _, st := range cs.Steps {
@@ -235,7 +249,7 @@ func c08Oracle(c *h.Ctx, sc srvScenario, r srvResult, caseJSON any, prop string)
 		// walk the script: what has been sent when each read happens, and whether the connection is still live
 		var sent []srvSent
 		var pend *srvSent
-		live := cs.TLS != "fail" && !cs.HookFail && !(anyShutdown && len(sc.Conns) > 1)
+		live := cs.TLS != "fail" && !strings.HasPrefix(cs.TLS, "silent") && !cs.HookFail && !(anyShutdown && len(sc.Conns) > 1)
 		fatalAt := -1 // index in sent of the first undecodable message
 		gi := 0       // next observation
 		answered := 0
@@ -383,6 +397,15 @@ func c08Targeted() []srvScenario {
 	l = append(l, one(srvConn{TLS: "fail", Steps: []srvStep{S("read"), S("close")}}))
 	l = append(l, one(srvConn{TLS: "ok", Steps: []srvStep{R("ok"), S("read"), R("pstr"), S("read"), S("close")}}))
 	l = append(l, one(srvConn{TLS: "ok", Steps: []srvStep{{Op: "enc", Arg: 0}, S("read"), S("read"), S("close")}}))
+	// a peer that connects to the TLS server and stays silent (or sends a fragment of a record) while
+	// other clients come and go: they are served all the same
+	for _, mode := range []string{"silent", "silent3"} {
+		l = append(l, srvScenario{NoProbe: true, Conns: []srvConn{
+			{TLS: mode, Steps: []srvStep{{Op: "settle", Arg: 2500}, S("close")}},
+			{TLS: "ok", Steps: []srvStep{{Op: "settle", Arg: 30}, R("ok"), S("read"), S("close")}},
+			{TLS: "ok", Steps: []srvStep{{Op: "settle", Arg: 60}, R("ok"), R("perr"), S("read"), S("read"), S("close")}},
+		}})
+	}
 	return l
 }
 
